@@ -12,12 +12,15 @@
  *   - has_tasks: true iff something is pending; time 0 if a run-now task is pending, else the minimum pending time,
  *     UINT64_MAX if nothing is pending                                                                   (next time)
  *
- * The same file is used two ways:
- *   CBMC (mode "bounded"): operations, task indices, times (full 64 bit) and the re-entrant actions are nondeterministic;
- *        every loop is unwound with unwinding assertions.  Bounds: VERIF_SEQ_NT tasks, VERIF_SEQ_STEPS operations followed
- *        by clean_up, VERIF_SEQ_BUDGET re-entrant actions in total.
- *   native (mode "native"): the same scenario function is run for every choice sequence (exhaustive, times from a small
- *        table with 0, equal, decreasing and UINT64_MAX values) or for pseudo-random choice sequences with larger bounds.
+ * Mode "native" (compiled with cc and run; never counted as proved): the scenario function is run for every choice
+ * sequence (exhaustive: operations, task indices, times from a small table with 0, equal, decreasing and UINT64_MAX
+ * values, heap refusal on/off, re-entrant actions) or for pseudo-random choice sequences with larger bounds.
+ * The scheduler only compares time stamps with each other and with the run time (and uses the constants 0 and
+ * UINT64_MAX), so what matters is the order type of the <= 4 times a 3-operation scenario contains; the 4-value table
+ * realises every order type (when all four differ, the smallest is 0 and the largest UINT64_MAX; the random unit uses 6 values).
+ * (A symbolic CBMC run of the same scenarios was tried with the real heap and with an executable heap model: one
+ * schedule_future + two run_all calls on ONE task do not finish within 10 minutes - the pointer structure of the lists
+ * after a symbolic branch makes the formula explode; the function-level units are where CBMC decides things.)
  *
  * Environment: the heap refuses a push only when told to (hook ts_hook_push_ref around the REAL aws_priority_queue_push_ref;
  * the library text is unchanged) - this is the only way to reach the overflow list, since aws_mem_acquire never returns NULL.
@@ -40,153 +43,59 @@
 #endif
 #define NT VERIF_SEQ_NT
 
-#ifdef VERIF_SEQ_CBMC
-#    include "contracts/task_scheduler.h" /* ghosts mentioned by the loop contracts that the overlay inserts (not applied here) */
-#    define CHK(c, msg) __CPROVER_assert((c), msg)
-static size_t CH(size_t n) { size_t c = nondet_size_t(); __CPROVER_assume(c < n); return c; }
-static uint64_t CHT(void) { return nondet_u64(); }
-#    define SEQ_STEPS VERIF_SEQ_STEPS
-#    define SEQ_BUDGET VERIF_SEQ_BUDGET
-#else
-#    define __CPROVER_assigns(...)
-#    define __CPROVER_loop_invariant(...)
-#    define __CPROVER_decreases(...)
-#    include <aws/common/task_scheduler.h>
+/* the overlay copy of task_scheduler.c (used when a built-in mutant is applied) carries loop-contract annotations */
+#define __CPROVER_assigns(...)
+#define __CPROVER_loop_invariant(...)
+#define __CPROVER_decreases(...)
+#include <aws/common/task_scheduler.h>
+#include <signal.h>
+#include <unistd.h>
 static unsigned long n_fail, n_cases, n_checks;
 static const char *cur_desc(void);
 static void fail_now(const char *msg);
-#    define CHK(c, msg) do { n_checks++; if (!(c)) fail_now(msg); } while (0)
+#define CHK(c, msg) do { n_checks++; if (!(c)) fail_now(msg); } while (0)
 static size_t CH(size_t n);
 static uint64_t CHT(void);
 static unsigned SEQ_STEPS = VERIF_SEQ_STEPS, SEQ_BUDGET = VERIF_SEQ_BUDGET;
-#endif
 
 /* ---- system under test ---- */
 static struct aws_task T[NT];
 static struct aws_task_scheduler S;
 static struct aws_allocator A;
-#define S_timed_queue_addr() S.timed_queue
 
 /* ---- the real sources (overlay copy when a built-in mutant is applied to a native unit) ---- */
-#if !defined(VERIF_SEQ_CBMC) && defined(__has_include)
+#if defined(__has_include)
 #    if __has_include("ovl/source/task_scheduler.c")
 #        define SEQ_OVL 1
 #    endif
 #endif
 static bool env_push_fails;
-#ifdef VERIF_SEQ_CBMC
-/* CBMC flavour: the heap is an executable CLIENT MODEL (the real priority_queue.c with symbolic contents is out of reach
- * of symbolic execution here: >15 min for one operation; its own behaviour is property C06; the native flavour of this
- * file runs the real one).  The model is the weakest heap the scheduler may rely on: a bag of (element, handle) pairs;
- * top() hands out the slot of ANY element of minimal time (nondeterministic among ties), pop() removes the element the
- * preceding top() showed (or any minimal one), remove() takes the element out whose handle is given and refuses a handle
- * that is not in the queue, handles of stored elements hold their slot, others SIZE_MAX after pop/remove/node_init. */
-static struct aws_task *mq[NT + 1];
-static struct aws_priority_queue_node *mq_bp[NT + 1];
-static size_t mq_n, mq_cached;
-static bool mq_cache_ok;
-static int model_init_dynamic(struct aws_priority_queue *q, struct aws_allocator *a, size_t n, size_t isz, aws_priority_queue_compare_fn *pred) {
-    CHK(a != NULL && isz == sizeof(struct aws_task *) && pred != NULL && n > 0, "heap initialised for task pointers with a comparator");
-    memset(q, 0, sizeof(*q)); q->pred = pred; q->container.alloc = a; q->container.item_size = isz;
-    mq_n = 0; mq_cache_ok = false;
-    return AWS_OP_SUCCESS;
-}
-static bool model_is_valid(const struct aws_priority_queue *q) { return q->pred != NULL; }
-static void model_clean_up(struct aws_priority_queue *q) { CHK(mq_n == 0, "heap released while tasks are still in it"); memset(q, 0, sizeof(*q)); mq_n = 0; }
-static void model_node_init(struct aws_priority_queue_node *n) { n->current_index = SIZE_MAX; }
-static int model_push_ref(struct aws_priority_queue *q, void *item, struct aws_priority_queue_node *bp) {
-    CHK(q == &S_timed_queue_addr(), "push into the scheduler's heap");
-    if (env_push_fails) return aws_raise_error(AWS_ERROR_OOM);
-    CHK(mq_n < NT, "model heap capacity");
-    CHK(bp != NULL && bp->current_index == SIZE_MAX, "push_ref: handle says not-in-queue");
-    mq[mq_n] = *(struct aws_task **)item; mq_bp[mq_n] = bp; bp->current_index = mq_n; mq_n++;
-    mq_cache_ok = false;
-    return AWS_OP_SUCCESS;
-}
-static size_t model_min(void) {
-    if (mq_cache_ok) return mq_cached;
-    size_t k = CH(mq_n);
-    for (size_t j = 0; j < NT; j++) if (j < mq_n) __CPROVER_assume(mq[k]->timestamp <= mq[j]->timestamp);
-    mq_cached = k; mq_cache_ok = true;
-    return k;
-}
-static void model_take(size_t k, void *item) {
-    *(struct aws_task **)item = mq[k];
-    mq_bp[k]->current_index = SIZE_MAX;
-    mq_n--;
-    if (k != mq_n) { mq[k] = mq[mq_n]; mq_bp[k] = mq_bp[mq_n]; mq_bp[k]->current_index = k; }
-    mq_cache_ok = false;
-}
-static int model_top(const struct aws_priority_queue *q, void **item) {
-    (void)q;
-    if (mq_n == 0) return aws_raise_error(AWS_ERROR_PRIORITY_QUEUE_EMPTY);
-    *item = &mq[model_min()];
-    return AWS_OP_SUCCESS;
-}
-static int model_pop(struct aws_priority_queue *q, void *item) {
-    (void)q;
-    if (mq_n == 0) return aws_raise_error(AWS_ERROR_PRIORITY_QUEUE_EMPTY);
-    model_take(model_min(), item);
-    return AWS_OP_SUCCESS;
-}
-static int model_remove(struct aws_priority_queue *q, void *item, const struct aws_priority_queue_node *node) {
-    (void)q;
-    if (node->current_index >= mq_n || mq_bp[node->current_index] != node) return aws_raise_error(AWS_ERROR_PRIORITY_QUEUE_BAD_NODE);
-    model_take(node->current_index, item);
-    return AWS_OP_SUCCESS;
-}
-#    define aws_priority_queue_init_dynamic model_init_dynamic
-#    define aws_priority_queue_is_valid model_is_valid
-#    define aws_priority_queue_clean_up model_clean_up
-#    define aws_priority_queue_node_init model_node_init
-#    define aws_priority_queue_push_ref model_push_ref
-#    define aws_priority_queue_top model_top
-#    define aws_priority_queue_pop model_pop
-#    define aws_priority_queue_remove model_remove
-#    include "source/task_scheduler.c"
-#else
-#    include "source/array_list.c"
-#    include "source/priority_queue.c"
+#include "source/array_list.c"
+#include "source/priority_queue.c"
 static int ts_hook_push_ref(struct aws_priority_queue *q, void *item, struct aws_priority_queue_node *bp) {
     if (env_push_fails) return aws_raise_error(AWS_ERROR_OOM);
     return aws_priority_queue_push_ref(q, item, bp);
 }
-#    define aws_priority_queue_push_ref ts_hook_push_ref
-#    ifdef SEQ_OVL
-#        include "ovl/source/task_scheduler.c"
-#    else
-#        include "source/task_scheduler.c"
-#    endif
-#    undef aws_priority_queue_push_ref
+#define aws_priority_queue_push_ref ts_hook_push_ref
+#ifdef SEQ_OVL
+#    include "ovl/source/task_scheduler.c"
+#else
+#    include "source/task_scheduler.c"
 #endif
+#undef aws_priority_queue_push_ref
 
 /* ---- environment bodies ---- */
 static int env_last_error;
 void aws_raise_error_private(int err) { env_last_error = err; }
 int aws_last_error(void) { return env_last_error; }
 struct aws_logger *aws_logger_get(void) { return NULL; }
-#ifdef VERIF_SEQ_CBMC
-void aws_fatal_assert(const char *cond_str, const char *file, int line) {
-    (void)cond_str; (void)file; (void)line;
-    __CPROVER_assert(0, "aws_fatal_assert reached: the library would abort");
-    __CPROVER_assume(0);
-}
-#else
 void aws_fatal_assert(const char *cond_str, const char *file, int line) {
     (void)file; (void)line;
     fail_now(cond_str);
+    abort();
 }
-#endif
-void *aws_mem_acquire(struct aws_allocator *a, size_t n) { (void)a; void *p = malloc(n);
-#ifdef VERIF_SEQ_CBMC
-    __CPROVER_assume(p != NULL);
-#endif
-    return p; }
-void *aws_mem_calloc(struct aws_allocator *a, size_t n, size_t s) { (void)a; void *p = calloc(n, s);
-#ifdef VERIF_SEQ_CBMC
-    __CPROVER_assume(p != NULL);
-#endif
-    return p; }
+void *aws_mem_acquire(struct aws_allocator *a, size_t n) { (void)a; return malloc(n); }
+void *aws_mem_calloc(struct aws_allocator *a, size_t n, size_t s) { (void)a; return calloc(n, s); }
 void aws_mem_release(struct aws_allocator *a, void *p) { (void)a; free(p); }
 
 /* ---- reference model ---- */
@@ -286,16 +195,6 @@ static void scenario(void) {
     int rc = aws_task_scheduler_init(&S, &A);
     CHK(rc == AWS_OP_SUCCESS, "init succeeds");
     check_has_tasks();
-#ifdef VERIF_SEQ_SCRIPT
-    /* scripted shape (CBMC): the operations and their tasks are fixed, times / heap refusals / re-entrant actions symbolic */
-#    define OPN(j) { if (!m_pend[j]) do_schedule_now(j); check_has_tasks(); }
-#    define OPF(j) { if (!m_pend[j]) { uint64_t t = CHT(); bool r = SEQ_REFUSE(); do_schedule_future(j, t, r); } check_has_tasks(); }
-#    define OPG(j) { if (!m_pend[j]) { uint64_t t = CHT(); do_schedule_future(j, t, true); } check_has_tasks(); } /* heap refuses: overflow list */
-#    define OPH(j) { if (!m_pend[j]) { uint64_t t = CHT(); do_schedule_future(j, t, false); } check_has_tasks(); } /* heap accepts */
-#    define OPC(j) { if (m_pend[j]) do_cancel(j); check_has_tasks(); }
-#    define OPR { do_run_all(CHT()); check_has_tasks(); }
-    VERIF_SEQ_SCRIPT
-#else
     for (unsigned s = 0; s < SEQ_STEPS; s++) {
         size_t op = CH(4), j = CH(NT);
         if (op == 0) { if (!m_pend[j]) do_schedule_now(j); }
@@ -304,25 +203,14 @@ static void scenario(void) {
         else { do_run_all(CHT()); }
         check_has_tasks();
     }
-#endif
     m_in_cleanup = true;
     aws_task_scheduler_clean_up(&S);
     m_in_cleanup = false;
     for (size_t i = 0; i < NT; i++) CHK(!m_pend[i], "clean_up: every pending task was cancelled");
 }
 
-#ifdef VERIF_SEQ_CBMC
-void h_seq(void) {
-    scenario();
-    bool any_twice = false;
-    for (size_t i = 0; i < NT; i++) if (m_calls[i] >= 2) any_twice = true;
-    if (any_twice) CANARY("some task went through the scheduler twice");
-    else if (m_budget < SEQ_BUDGET) CANARY("a task function re-entered the scheduler");
-    else CANARY("plain sequence");
-}
-#else
-/* ---- native choice source: exhaustive odometer or PRNG ---- */
-#    define MAXC 256
+/* ---- choice source: exhaustive odometer or PRNG ---- */
+#define MAXC 256
 static unsigned ch_val[MAXC], ch_lim[MAXC], ch_len, ch_pos;
 static bool rnd_mode;
 static uint64_t rng;
@@ -357,19 +245,26 @@ static void fail_now(const char *msg) {
     fflush(stdout);
     _exit(1);
 }
-#    include <signal.h>
-#    include <unistd.h>
 static void on_signal(int sig) {
     fail_now(sig == SIGALRM ? "watchdog: scenario does not terminate (clean_up / run_all loops forever)" : "crash (signal) inside the library");
 }
 int main(int argc, char **argv) {
     signal(SIGALRM, on_signal); signal(SIGSEGV, on_signal); signal(SIGBUS, on_signal); signal(SIGABRT, on_signal); signal(SIGFPE, on_signal);
     alarm(30);
-    /* args: exh STEPS BUDGET NTIMES | rnd STEPS BUDGET COUNT SEED */
+    /* args: exh STEPS BUDGET NTIMES | rnd STEPS BUDGET COUNT SEED | replay STEPS BUDGET NTIMES CHOICES */
     const char *mode = argc > 1 ? argv[1] : "exh";
     SEQ_STEPS = argc > 2 ? (unsigned)atoi(argv[2]) : VERIF_SEQ_STEPS;
     SEQ_BUDGET = argc > 3 ? (unsigned)atoi(argv[3]) : VERIF_SEQ_BUDGET;
     if (SEQ_BUDGET > VERIF_SEQ_BUDGET) { printf("FAIL budget above compiled maximum\n"); return 2; }
+    if (strcmp(mode, "replay") == 0) {
+        /* replay STEPS BUDGET NTIMES c0,c1,c2,...  : re-run ONE scenario from the choice list printed in a FAIL line */
+        n_tv = argc > 4 ? (unsigned)atoi(argv[4]) : 4;
+        ch_len = 0;
+        for (char *q = argc > 5 ? argv[5] : ""; *q && ch_len < MAXC;) { ch_val[ch_len++] = (unsigned)strtoul(q, &q, 10); if (*q == ',') q++; }
+        ch_pos = 0; scenario(); n_cases++;
+        printf("CASES %lu\nchecks %lu\n", n_cases, n_checks);
+        return 0;
+    }
     if (strcmp(mode, "rnd") == 0) {
         unsigned long count = argc > 4 ? strtoul(argv[4], NULL, 10) : 100000;
         rng = 0x9E3779B97F4A7C15ull ^ (argc > 5 ? strtoull(argv[5], NULL, 10) : 1);
@@ -383,4 +278,3 @@ int main(int argc, char **argv) {
     printf("CASES %lu\nchecks %lu\n", n_cases, n_checks);
     return n_fail ? 1 : 0;
 }
-#endif
